@@ -80,9 +80,33 @@ def run_op(coll, op, clock):
         fn = coll.delete_many if a['multi'] else coll.delete_one
         return {'deleted': fn(a['filter']).deleted_count}
     if o == 'find':
-        cur = coll.find(a['filter'], sort=[tuple(x) for x in a['sort']] or None,
+        cur = coll.find(a['filter'], a.get('proj'), sort=[tuple(x) for x in a['sort']] or None,
                         skip=a['skip'], limit=a['limit'])
         return canon(list(cur))
+    if o == 'fam':
+        kw = {'projection': a.get('proj'), 'sort': [tuple(x) for x in a['sort']] or None}
+        if a['kind'] == 'delete':
+            return canon(coll.find_one_and_delete(a['filter'], **kw))
+        kw['upsert'] = a['upsert']
+        kw['return_document'] = a['after']
+        if a['kind'] == 'update':
+            return canon(coll.find_one_and_update(a['filter'], a['arg'], **kw))
+        return canon(coll.find_one_and_replace(a['filter'], a['arg'], **kw))
+    if o == 'bulk':
+        reqs = [BulkReq(r['kind'], **{k: v for k, v in r.items() if k != 'kind'}) for r in a['reqs']]
+        keys = ['nInserted', 'nMatched', 'nModified', 'nUpserted', 'nRemoved']
+        try:
+            r = coll.bulk_write(reqs, ordered=a['ordered'])
+        except mongomock.BulkWriteError as e:
+            d = e.details
+            out = {k: d[k] for k in keys}
+            out['upserted'] = [u['_id'] for u in d['upserted']]
+            out['writeErrors'] = [{'index': w['index'], 'code': w['code']} for w in d['writeErrors']]
+            return {'BulkWriteError': out}
+        d = r.bulk_api_result
+        out = {k: d[k] for k in keys}
+        out['upserted'] = [u['_id'] for u in d['upserted']]
+        return out
     if o == 'count':
         kw = {}
         if a['skip']:
@@ -155,6 +179,23 @@ def key_to_coq(key):
     return coq_list('(%s, %s)' % (coq_string(k), to_coq(d)) for k, d in key)
 
 
+def proj_to_coq(p):
+    return 'None' if p is None else '(Some (%s))' % to_coq(p)
+
+
+def req_to_coq(r):
+    k = r['kind']
+    if k == 'insert_one':
+        return 'BInsert (%s)' % to_coq(r['doc'])
+    if k in ('update_one', 'update_many'):
+        return 'BUpdate (%s) (%s) %s %s' % (to_coq(r['filter']), to_coq(r['update']),
+                                            coq_bool(k == 'update_many'), coq_bool(r.get('upsert', False)))
+    if k == 'replace_one':
+        return 'BReplace (%s) (%s) %s' % (to_coq(r['filter']), to_coq(r['repl']),
+                                          coq_bool(r.get('upsert', False)))
+    return 'BDelete (%s) %s' % (to_coq(r['filter']), coq_bool(k == 'delete_many'))
+
+
 def op_to_coq(op):
     o = op['op']
     if o == 'insert_one':
@@ -170,8 +211,18 @@ def op_to_coq(op):
     if o == 'delete':
         return 'ODelete (%s) %s' % (to_coq(op['filter']), coq_bool(op['multi']))
     if o == 'find':
-        return 'OFind (%s) %s %s %s' % (to_coq(op['filter']), sort_to_coq(op['sort']),
-                                        coq_z(op['skip']), coq_z(op['limit']))
+        return 'OFind (%s) %s %s %s %s' % (to_coq(op['filter']), proj_to_coq(op.get('proj')),
+                                           sort_to_coq(op['sort']), coq_z(op['skip']), coq_z(op['limit']))
+    if o == 'fam':
+        if op['kind'] == 'delete':
+            k = 'FamDelete'
+        else:
+            k = '(%s (%s) %s %s)' % ('FamUpdate' if op['kind'] == 'update' else 'FamReplace',
+                                     to_coq(op['arg']), coq_bool(op['upsert']), coq_bool(op['after']))
+        return 'OFindAndModify (%s) %s %s %s' % (to_coq(op['filter']), proj_to_coq(op.get('proj')),
+                                                 sort_to_coq(op['sort']), k)
+    if o == 'bulk':
+        return 'OBulk %s %s' % (coq_list(req_to_coq(r) for r in op['reqs']), coq_bool(op['ordered']))
     if o == 'count':
         return 'OCount (%s) %s %s' % (to_coq(op['filter']), coq_z(op['skip']),
                                       coq_opt(None if op['limit'] is None else coq_z(op['limit'])))
@@ -290,6 +341,26 @@ def gen_update(rng, docs, ops=None, **kw):
     return u
 
 
+def gen_projection(rng, docs):
+    base = rng.choice(docs) if docs and rng.random() < 0.8 else gen.document(rng, 2)
+    mode = rng.choice([1, 1, 0])
+    if rng.random() < 0.12:
+        return [gen.path(rng, base) for _ in range(rng.choice([0, 1, 2]))]
+    p = {}
+    for _ in range(rng.choice([0, 1, 1, 2, 3])):
+        k = gen.path(rng, base)
+        r = rng.random()
+        if r < 0.12:
+            p[k.split('.')[0]] = {'$slice': rng.choice([0, 1, 2, -1, -2, 5, [0, 1], [1, 2], [-2, 1], [1]])}
+        elif r < 0.2:
+            p[k.split('.')[0]] = {'$elemMatch': gen.elem_query(rng, base, 0, False)}
+        else:
+            p[k] = mode if rng.random() < 0.93 else 1 - mode
+    if rng.random() < 0.35:
+        p['_id'] = rng.choice([0, 1, 0, False, True])
+    return p
+
+
 def gen_op(rng, docs, weights, **kw):
     kinds = [k for k, w in weights.items() for _ in range(w)]
     k = rng.choice(kinds)
@@ -313,7 +384,37 @@ def gen_op(rng, docs, weights, **kw):
             sort = [[rng.choice(gen.KEYS + ['_id', 'a.b']), rng.choice([1, -1])]
                     for _ in range(rng.choice([1, 1, 2]))]
         return {'op': 'find', 'filter': gen_filter(rng, docs, **kw), 'sort': sort,
+                'proj': gen_projection(rng, docs) if rng.random() < 0.3 else None,
                 'skip': rng.choice([0, 0, 0, 1, 2]), 'limit': rng.choice([0, 0, 0, 1, 2, -1])}
+    if k == 'fam':
+        kind = rng.choice(['update', 'update', 'replace', 'delete'])
+        sort = []
+        if rng.random() < 0.6:
+            sort = [[rng.choice(gen.KEYS + ['_id']), rng.choice([1, -1])]]
+        op = {'op': 'fam', 'kind': kind, 'filter': gen_filter(rng, docs, **kw), 'sort': sort,
+              'proj': gen_projection(rng, docs) if rng.random() < 0.5 else None,
+              'upsert': rng.random() < 0.25, 'after': rng.random() < 0.5}
+        if kind == 'update':
+            op['arg'] = gen_update(rng, docs, **kw)
+        elif kind == 'replace':
+            op['arg'] = gen.document(rng, 1, with_id=False, **kw)
+        return op
+    if k == 'bulk':
+        reqs = []
+        for _ in range(rng.choice([1, 2, 3, 4])):
+            kind = rng.choice(['insert_one', 'insert_one', 'update_one', 'update_many', 'replace_one',
+                               'delete_one', 'delete_many'])
+            if kind == 'insert_one':
+                reqs.append({'kind': kind, 'doc': small_doc(rng, **kw)})
+            elif kind in ('update_one', 'update_many'):
+                reqs.append({'kind': kind, 'filter': gen_filter(rng, docs, **kw),
+                             'update': gen_update(rng, docs, **kw), 'upsert': rng.random() < 0.3})
+            elif kind == 'replace_one':
+                reqs.append({'kind': kind, 'filter': gen_filter(rng, docs, **kw),
+                             'repl': gen.document(rng, 1, with_id=False, **kw), 'upsert': rng.random() < 0.3})
+            else:
+                reqs.append({'kind': kind, 'filter': gen_filter(rng, docs, **kw)})
+        return {'op': 'bulk', 'reqs': reqs, 'ordered': rng.random() < 0.5}
     if k == 'count':
         return {'op': 'count', 'filter': gen_filter(rng, docs, **kw), 'skip': rng.choice([0, 0, 1, 3]),
                 'limit': rng.choice([None, None, 1, 2])}
@@ -340,7 +441,7 @@ def gen_op(rng, docs, weights, **kw):
 
 
 DEFAULT_WEIGHTS = {'insert_one': 6, 'insert_many': 2, 'update': 6, 'replace': 2, 'delete': 2,
-                   'find': 2, 'count': 1, 'distinct': 1, 'create_index': 2, 'drop_index': 1,
+                   'find': 3, 'fam': 3, 'bulk': 2, 'count': 1, 'distinct': 1, 'create_index': 2, 'drop_index': 1,
                    'drop_indexes': 1, 'index_info': 1, 'drop': 1}
 
 
